@@ -1,4 +1,4 @@
-\* repaired model, base chain 0..1 below the bloom-window boundary (2), 13 operations over 6 block numbers x 3 versions, two-block prune batches; exhaustive: 775 134 distinct states (6 879 902 generated), 97 s on 8 workers
+\* repaired model, base chain 0..1 below the bloom-window boundary (2), 13 operations over 6 block numbers x 3 versions, two-block prune batches, faults in every durable mutation (initialisation included); exhaustive: 775 134 distinct states (7 099 834 generated), 129 s on 4 workers
 CONSTANTS
   MaxH = 5
   MaxVer = 3
